@@ -82,7 +82,7 @@ class ModelSpec(Spec):
             a = self.abstract(t)
             v = m.step(op, out, self.ctx, set(a.objects))
             if v:
-                raise common.HarnessError("initial history violates the model: %r %r" % (op, v))
+                raise common.SetupFailure("initial history violates the model: %r %r" % (op, v))
         t = snapshot(root)
         self.fresh_attrs = plain_attrs(store)
         return t, (m, None)
